@@ -1,18 +1,12 @@
 (* C08, part A: Close is final in the agent core (Model/AgentCore.v), for EVERY state and EVERY
    operation sequence.
 
-   - [closed_step]: in a closed state every operation except Renominate leaves the state unchanged
-     (Advance only moves the virtual clock, which is not agent state) and outputs exactly the
-     result the real API reports: the closed error where the result depends on agent state,
-     an argument-validation result where the argument is rejected before the state is looked at
-     (empty credentials, an active-TCP remote candidate), nothing for inbound traffic and ticks,
-     and nil for a repeated Close.
-   - [closed_renominate]: RenominateCandidate is the one public method that never looks at the
-     closed flag (agent.go: not wrapped in loop.Run, no Err() check).  The model follows the code,
-     so after Close it can still register a pending transaction and attempt a send; what IS proved
-     for it is that it never notifies, never delivers, never re-opens (lifecycle part unchanged).
-     The witness that the effect really occurs in the model is Findings/F_C08_renominate.v; the
-     harness shows it on the real agent (monitor check C08.later_calls_closed_error).
+   - [closed_step]: in a closed state every operation leaves the state unchanged (Advance only
+     moves the virtual clock, which is not agent state) and outputs exactly the result the real API
+     reports: the closed error where the result depends on agent state, an argument-validation
+     result where the argument is rejected before the state is looked at (empty credentials, an
+     active-TCP remote candidate), nothing for inbound traffic and ticks, nil for a repeated Close.
+     RenominateCandidate is covered since /repo commit 36290cd (it runs on the task loop).
    - [close_step]: Close from a non-closed state closes; with the lifecycle invariant
      ([Closed] is only notified by Close) it notifies Closed, as the last output before nil.
    - lifted to histories ([run_from]/[run]) by induction on the operation list. *)
@@ -22,8 +16,6 @@ Import ListNotations.
 Local Open Scope Z_scope.
 
 (* ---- what a closed agent answers ------------------------------------------------------------- *)
-Definition is_renominate (o : op) : bool := match o with Renominate _ _ _ => true | _ => false end.
-
 Definition closed_outs (o : op) : list out :=
   match o with
   | AddLocal _ => [ORet RErrClosed]
@@ -32,7 +24,7 @@ Definition closed_outs (o : op) : list out :=
   | SetRemoteCreds ru rp => if (ru =? 0) || (rp =? 0) then [ORet RErrEmptyCreds] else [ORet RErrClosed]
   | Advance _ | Tick | InStun _ _ _ | InData _ _ _ => []
   | Write _ | WriteToPair _ _ | Read | Restart _ _ => [ORet RErrClosed]
-  | Renominate _ _ _ => []          (* not covered: see closed_renominate *)
+  | Renominate _ _ _ => [ORet RErrClosed]
   | Close => [ORet ROk]
   end.
 
@@ -44,10 +36,10 @@ Definition closed_next (o : op) (s : state) : state :=
   end.
 
 Lemma closed_step cfg s o :
-  s_closed s = true -> is_renominate o = false ->
+  s_closed s = true ->
   step cfg s o = (closed_next o s, closed_outs o).
 Proof.
-  intros Hc Hr. unfold step. destruct o; cbn [step_m closed_next closed_outs]; try discriminate Hr.
+  intros Hc. unfold step. destruct o; cbn [step_m closed_next closed_outs].
   - unfold with_state. rewrite Hc. reflexivity.
   - unfold with_state. rewrite Hc. destruct (c_tcp c =? TCPTypeActive); reflexivity.
   - unfold do_start, with_state. rewrite Hc. reflexivity.
@@ -60,6 +52,7 @@ Proof.
   - unfold conn_write_to_pair, with_state. rewrite Hc. reflexivity.
   - unfold conn_read, with_state. rewrite Hc. reflexivity.
   - unfold do_restart, with_state. rewrite Hc. reflexivity.
+  - unfold renominate_op, with_state. rewrite Hc. reflexivity.
   - unfold do_close, with_state. rewrite Hc. reflexivity.
 Qed.
 
@@ -87,67 +80,28 @@ Proof.
 Qed.
 
 Lemma closed_state_is_final cfg s o :
-  s_closed s = true -> is_renominate o = false ->
+  s_closed s = true ->
   step cfg s o = (closed_next o s, closed_outs o)
   /\ agent_view (closed_next o s) = agent_view s
   /\ Forall is_ret (closed_outs o).
 Proof.
-  intros Hc Hr. split; [exact (closed_step cfg s o Hc Hr)|].
+  intros Hc. split; [exact (closed_step cfg s o Hc)|].
   split; [exact (closed_next_view o s)|exact (closed_outs_rets o)].
 Qed.
 
-(* ---- Renominate after Close: what still holds ------------------------------------------------ *)
-(* the lifecycle / delivery part of the state *)
-Definition life_part (s : state) :=
-  (s_conn s, s_closed s, s_started s, s_selected s, s_nominated s, s_locals s, s_remotes s, s_buf s,
-   s_bytes_sent s, s_bytes_recv s, s_lufrag s, s_lpwd s, s_rufrag s, s_rpwd s, s_ctl s, s_cache s,
-   s_lastrecv s, s_now s).
-
-Definition send_or_ret (o : out) : Prop :=
-  match o with OSend _ _ _ | ORet _ => True | _ => False end.
-
-Ltac outs_tac := cbn; repeat constructor.
-
-Lemma closed_renominate cfg l r v :
-  sat (mp_and (frame life_part) (outs_all send_or_ret)) (do_renominate cfg l r v).
-Proof.
-  apply sat_and.
-  - sat_decompose; sat_base frame_tac.
-  - sat_decompose; sat_base outs_tac.
-Qed.
-
-Lemma renominate_keeps_closed cfg l r v : sat (frame s_closed) (do_renominate cfg l r v).
-Proof. sat_decompose; sat_base frame_tac. Qed.
-
-(* ---- no notification, no delivery, no send from a closed agent (Renominate's send excepted) --- *)
-Definition quiet_out (allow_send : bool) (o : out) : Prop :=
-  match o with
-  | ORet _ => True
-  | OSend _ _ _ => allow_send = true
-  | _ => False
-  end.
+(* ---- no notification, no delivery, no send from a closed agent ------------------------------- *)
+Definition quiet_out (o : out) : Prop := match o with ORet _ => True | _ => False end.
 
 Lemma closed_step_quiet cfg s o :
   s_closed s = true ->
   s_closed (fst (step cfg s o)) = true /\
-  Forall (quiet_out (is_renominate o)) (snd (step cfg s o)) /\
-  life_part (fst (step cfg s o)) = life_part (closed_next o s).
+  Forall quiet_out (snd (step cfg s o)) /\
+  agent_view (fst (step cfg s o)) = agent_view s.
 Proof.
-  intros Hc. destruct (is_renominate o) eqn:Hr.
-  - destruct o; try discriminate Hr. unfold step. cbn [step_m closed_next].
-    destruct (closed_renominate cfg l r v s) as [Hf Ho].
-    change (life_part (fst (do_renominate cfg l r v s)) = life_part s) in Hf.
-    change (Forall send_or_ret (snd (do_renominate cfg l r v s))) in Ho.
-    split; [|split].
-    + pose proof (renominate_keeps_closed cfg l r v s) as E.
-      change (s_closed (fst (do_renominate cfg l r v s)) = s_closed s) in E.
-      rewrite E. exact Hc.
-    + eapply Forall_impl; [|exact Ho]. intros a Ha. destruct a; cbn in *; auto.
-    + exact Hf.
-  - rewrite (closed_step cfg s o Hc Hr). cbn [fst snd]. split; [|split].
-    + rewrite closed_next_closed. exact Hc.
-    + eapply Forall_impl; [|apply closed_outs_rets]. intros a Ha. destruct a; cbn in *; auto.
-    + reflexivity.
+  intros Hc. rewrite (closed_step cfg s o Hc). cbn [fst snd]. split; [|split].
+  - rewrite closed_next_closed. exact Hc.
+  - eapply Forall_impl; [|apply closed_outs_rets]. intros a Ha. destruct a; cbn in *; auto.
+  - apply closed_next_view.
 Qed.
 
 (* ---- Close ------------------------------------------------------------------------------------ *)
@@ -170,14 +124,14 @@ Qed.
 Lemma close_step_closed cfg s : s_closed (fst (step cfg s Close)) = true.
 Proof.
   destruct (s_closed s) eqn:Hc.
-  - rewrite (closed_step cfg s Close Hc eq_refl). exact Hc.
+  - rewrite (closed_step cfg s Close Hc). exact Hc.
   - rewrite (close_step cfg s Hc). reflexivity.
 Qed.
 
 Lemma close_twice cfg s :
   let s1 := fst (step cfg s Close) in step cfg s1 Close = (s1, [ORet ROk]).
 Proof.
-  cbv zeta. apply (closed_step cfg _ Close (close_step_closed cfg s) eq_refl).
+  cbv zeta. apply (closed_step cfg _ Close (close_step_closed cfg s)).
 Qed.
 
 (* ---- the lifecycle invariant: Closed is notified / entered only by Close ---------------------- *)
@@ -314,27 +268,24 @@ Qed.
 Lemma InvC_run cfg lu lp ops : InvC (fst (run cfg lu lp ops)).
 Proof. apply InvC_run_from. apply InvC_init. Qed.
 
-(* once closed, the whole rest of any history is quiet and stays closed *)
+(* once closed, the whole rest of any history is quiet, the agent state is frozen and every output
+   is the fixed closed answer *)
 Theorem closed_forever cfg ops : forall s,
   s_closed s = true ->
   s_closed (fst (run_from cfg s ops)) = true /\
-  Forall (Forall (quiet_out true)) (snd (run_from cfg s ops)) /\
-  (Forall (fun o => is_renominate o = false) ops ->
-   agent_view (fst (run_from cfg s ops)) = agent_view s /\
-   snd (run_from cfg s ops) = map closed_outs ops).
+  Forall (Forall quiet_out) (snd (run_from cfg s ops)) /\
+  agent_view (fst (run_from cfg s ops)) = agent_view s /\
+  snd (run_from cfg s ops) = map closed_outs ops.
 Proof.
   induction ops as [|o ops IH]; intros s Hc.
-  - cbn. split; [exact Hc|split; [constructor|intros _; split; reflexivity]].
+  - cbn. split; [exact Hc|split; [constructor|split; reflexivity]].
   - rewrite run_from_cons. cbn [fst snd].
-    destruct (closed_step_quiet cfg s o Hc) as [Hc1 [Hq _]].
-    destruct (IH _ Hc1) as [IH1 [IH2 IH3]].
-    split; [exact IH1|split].
-    + constructor; [|exact IH2].
-      eapply Forall_impl; [|exact Hq]. intros a Ha. destruct a; cbn in *; auto.
-    + intros Hall. inversion Hall as [|? ? Ho Hops]; subst.
-      destruct (IH3 Hops) as [E1 E2]. rewrite E2.
-      rewrite (closed_step cfg s o Hc Ho) in *. cbn [fst snd] in *.
-      split; [rewrite E1; apply closed_next_view|reflexivity].
+    destruct (closed_step_quiet cfg s o Hc) as [Hc1 [Hq Hv]].
+    destruct (IH _ Hc1) as [IH1 [IH2 [IH3 IH4]]].
+    split; [exact IH1|split; [|split]].
+    + constructor; assumption.
+    + rewrite IH3. exact Hv.
+    + rewrite IH4. rewrite (closed_step cfg s o Hc). reflexivity.
 Qed.
 
 (* state notifications of a history, in order *)
@@ -343,18 +294,18 @@ Definition trace_states (tr : list (list out)) : list Z := flat_map outs_states 
 Lemma trace_states_app a b : trace_states (a ++ b) = trace_states a ++ trace_states b.
 Proof. apply flat_map_app. Qed.
 
-Lemma quiet_no_states b os : Forall (quiet_out b) os -> outs_states os = [].
+Lemma quiet_no_states os : Forall quiet_out os -> outs_states os = [].
 Proof.
   induction os as [|a os IH]; intros H; [reflexivity|].
   inversion H as [|? ? Ha Hos]; subst. unfold outs_states in *. cbn [flat_map].
   rewrite (IH Hos). destruct a; cbn in *; try contradiction; reflexivity.
 Qed.
 
-Lemma quiet_trace_no_states tr : Forall (Forall (quiet_out true)) tr -> trace_states tr = [].
+Lemma quiet_trace_no_states tr : Forall (Forall quiet_out) tr -> trace_states tr = [].
 Proof.
   induction tr as [|os tr IH]; intros H; [reflexivity|].
   inversion H as [|? ? Ha Hos]; subst. unfold trace_states in *. cbn [flat_map].
-  rewrite (IH Hos), (quiet_no_states _ _ Ha). reflexivity.
+  rewrite (IH Hos), (quiet_no_states _ Ha). reflexivity.
 Qed.
 
 (* Close at any position of any history from a reachable (InvC) non-closed state: the state
@@ -408,11 +359,10 @@ Proof. apply close_is_final. apply InvC_init. Qed.
    closed error -- stated per later operation *)
 Theorem after_close_results cfg lu lp pre post o :
   In Close pre ->
-  Forall (fun o => is_renominate o = false) post -> is_renominate o = false ->
   let s := fst (run cfg lu lp (pre ++ post)) in
   s_closed s = true /\ step cfg s o = (closed_next o s, closed_outs o).
 Proof.
-  intros Hin Hpost Ho s.
+  intros Hin s.
   assert (Hc : s_closed s = true).
   { subst s. unfold run.
     assert (G : forall ops s0, (s_closed s0 = true \/ In Close ops) -> s_closed (fst (run_from cfg s0 ops)) = true).
